@@ -16,7 +16,8 @@ DESIGN_REF = "DESIGN.md §3.2, §4 C05"
 RULE = (
     "cases = C04's program family with removal-heavy call lists (unschedule / remove_handler_for_watch / unschedule_all "
     "from API threads and re-entrantly from handlers, stop() at the end) x schedules (DFS with <= k preemptions over 6 "
-    "fixed programs, random schedules over Hypothesis programs).  non-trivial = some removal returned while >= 1 event of "
+    "fixed programs, random schedules over Hypothesis programs); a marker event queued through every live emitter at "
+    "quiescence is judged like any other event.  non-trivial = some removal returned while >= 1 event of "
     "the affected watch was still queued or yet to be queued by its emitter; distinct = digest of (program, schedule)"
 )
 ASSUMPTIONS = c04.ASSUMPTIONS[:1] + [
@@ -43,7 +44,7 @@ def check(prog, r, s):
                 if (f[0] == "unschedule" and h.paths[f[1]] == path) or f[0] in ("unschedule_all", "stop") or (f[0] == "remove" and f[1] == hid and h.paths[f[2]] == path):
                     affected.append((hid, path))
         for hid, path in affected:
-            for seq, hh, p, eid in h.cbs:
+            for seq, hh, p, eid in h.cbs + h.marker_cbs:  # the marker event queued at quiescence is an event like any other
                 if hh == hid and p == path and seq > t_ret and not h.callback_allowed(hid, path, seq):
                     raise Violation(
                         f"handler {hid} was called for {path}/e{eid} at t={seq}, after {list(f)} (by {c['who']}) had returned at t={t_ret} and without a later registration "
